@@ -199,7 +199,7 @@ Section RemovalProofs.
       assert (Hall : forallb (fun r => memN r rows) aff = true).
       { apply forallb_forall. intros r Hr. apply memN_In. apply Hrows. apply Haff'. assumption. }
       rewrite Hall.
-      destruct (set_fold_spec hack f aff c1 Hok) as [c2 [E2 [Hk2 [Ho2 Hg2]]]].
+      destruct (set_fold_spec f aff c1 Hok) as [c2 [E2 [Hk2 [Ho2 Hg2]]]].
       { intros r Hr. apply Haff' in Hr. destruct Hr as [t [_ Hr]]. unfold f. fold k.
         apply clean_up_cell_without. unfold refs in Hr. fold k in Hr. intros E. rewrite E in Hr. destruct Hr. }
       exists c2. split; [exact E2|]. split; [assumption|]. split; [assumption|].
@@ -212,4 +212,148 @@ Section RemovalProofs.
   Qed.
 End RemovalProofs.
 
-(* END-PART-2 *)
+(* ---- the world ------------------------------------------------------------------------------------------ *)
+Definition col_rows (trows : list nat) (w : wcol) : list nat := if w_own w then trows else w_rows w.
+
+(* the reverse index is exact and only existing rows hold references *)
+Definition wcol_ok (trows : list nat) (w : wcol) : Prop :=
+  inv_ok (w_col w) /\ forall r, refs (w_col w) r <> [] -> In r (col_rows trows w).
+
+Definition world_ok (wd : world) : Prop := Forall (wcol_ok (wd_rows wd)) (wd_cols wd).
+
+(* the cell of row r after the removal: removed rows of the table's own columns are reset; referring cells lose
+   exactly the removed targets *)
+Definition expected_cell (w : wcol) (existing : list nat) (targets : list Z) (r : nat) : cell :=
+  let k := rc_kind (w_col w) in
+  let v1 := if w_own w && memN r existing then default k else raw_get (w_col w) r in
+  if w_back w then cell_without k v1 targets else v1.
+
+Section WorldProofs.
+  Variable hack : list Z -> option (list Z).
+
+  Lemma remove_one_spec : forall trows removed w,
+    let existing := filter (fun r => memN r trows) removed in
+    let trows' := filter (fun r => negb (memN r removed)) trows in
+    let targets := map Z.of_nat removed in
+    wcol_ok trows w ->
+    exists w', remove_one hack trows' existing targets w = Ok w' /\
+      w_own w' = w_own w /\ w_back w' = w_back w /\ rc_kind (w_col w') = rc_kind (w_col w) /\
+      w_rows w' = col_rows trows' w /\ wcol_ok trows' w' /\
+      forall r, raw_get (w_col w') r = expected_cell w existing targets r.
+  Proof.
+    intros trows removed w existing trows' targets [Hok Hrows].
+    set (c := w_col w) in *. set (k := rc_kind c).
+    (* phase 1 *)
+    assert (H1 : exists c1,
+               (if w_own w then fold_left (fun acc r => bind acc (fun c' => col_unset hack c' r)) existing (Ok c)
+                else Ok c) = Ok c1 /\ rc_kind c1 = k /\ inv_ok c1 /\
+               forall r, raw_get c1 r = if w_own w && memN r existing then default k else raw_get c r).
+    { destruct (w_own w).
+      - destruct (unset_fold_spec hack existing c Hok) as [c1 [E [Hk [Ho Hg]]]]. exists c1. auto.
+      - exists c. split; [reflexivity|]. split; [reflexivity|]. split; [assumption|]. reflexivity. }
+    destruct H1 as [c1 [E1 [Hk1 [Ho1 Hg1]]]].
+    assert (Hrefs1 : forall r, refs c1 r <> [] -> refs c r <> [] /\ (w_own w = true -> ~ In r existing)).
+    { intros r. unfold refs. rewrite Hk1, Hg1. fold k.
+      destruct (w_own w) eqn:Eo; cbn [andb]; [|intros H; split; [assumption|discriminate]].
+      destruct (memN r existing) eqn:Em.
+      - rewrite iter_default. congruence.
+      - intros H. split; [assumption|]. intros _ Hin. apply memN_In in Hin. congruence. }
+    assert (Hin1 : forall r, refs c1 r <> [] -> In r (col_rows trows' w)).
+    { intros r Hr. destruct (Hrefs1 r Hr) as [Hrc Hne]. specialize (Hrows r Hrc).
+      unfold col_rows in *. destruct (w_own w); [|assumption].
+      unfold trows'. apply filter_In. split; [assumption|]. apply negb_true_iff.
+      destruct (memN r removed) eqn:Em; [|reflexivity]. exfalso. apply Hne; [reflexivity|].
+      unfold existing. apply filter_In. split; [apply memN_In; assumption|apply memN_In; assumption]. }
+    (* phase 2 *)
+    assert (H2 : exists c2,
+               (if w_back w
+                then bind (get_updates c1 targets)
+                       (fun ups => match ups with
+                                   | [] => Ok c1
+                                   | _ => doc_bulk_update hack (col_rows trows' w) c1 (map fst ups) (map snd ups)
+                                   end)
+                else Ok c1) = Ok c2 /\ rc_kind c2 = k /\ inv_ok c2 /\
+               (forall r, raw_get c2 r = if w_back w then cell_without k (raw_get c1 r) targets else raw_get c1 r)).
+    { destruct (w_back w).
+      - destruct (cleanup_spec hack (col_rows trows' w) c1 targets Ho1) as [c2 [E2 [Hk2 [Ho2 Hg2]]]].
+        { intros r [t [_ Ht]]. apply Hin1. intros E. rewrite E in Ht. destruct Ht. }
+        exists c2. split; [exact E2|]. split; [congruence|]. split; [assumption|].
+        intros r. rewrite Hg2, Hk1. reflexivity.
+      - exists c1. split; [reflexivity|]. split; [assumption|]. split; [assumption|]. reflexivity. }
+    destruct H2 as [c2 [E2 [Hk2 [Ho2 Hg2]]]].
+    unfold remove_one. fold c. rewrite E1. cbn [bind]. fold (col_rows trows' w). rewrite E2. cbn [bind].
+    eexists. split; [reflexivity|]. cbn [w_own w_back w_col w_rows].
+    split; [reflexivity|]. split; [reflexivity|]. split; [exact Hk2|]. split; [reflexivity|]. split.
+    - split; [exact Ho2|]. intros r Hr. cbn [w_col] in Hr.
+      assert (Hr1 : refs c1 r <> []).
+      { unfold refs in *. rewrite Hk2 in Hr. rewrite Hg2 in Hr. rewrite Hk1.
+        destruct (w_back w); [|assumption]. intros E. apply Hr.
+        destruct (value_iterable k (cell_without k (raw_get c1 r) targets)) as [|t l] eqn:Ev; [reflexivity|].
+        exfalso. assert (Hin : In t (value_iterable k (raw_get c1 r))).
+        { apply (cell_without_refs_sub k _ targets). rewrite Ev. left. reflexivity. }
+        rewrite E in Hin. destruct Hin. }
+      specialize (Hin1 r Hr1). unfold col_rows in *. cbn [w_own w_rows]. destruct (w_own w); assumption.
+    - intros r. rewrite Hg2. unfold expected_cell. fold c k. rewrite Hg1. reflexivity.
+  Qed.
+  Lemma Forall2_Forall_r : forall A B (P : A -> B -> Prop) (Q : B -> Prop) l l',
+    Forall2 P l l' -> (forall x y, P x y -> Q y) -> Forall Q l'.
+  Proof. intros A B P Q l l' H HPQ. induction H; constructor; eauto. Qed.
+
+  Theorem remove_rows_spec : forall wd removed, world_ok wd ->
+    let existing := filter (fun r => memN r (wd_rows wd)) removed in
+    let targets := map Z.of_nat removed in
+    exists wd', remove_rows hack wd removed = Ok wd' /\
+      wd_rows wd' = filter (fun r => negb (memN r removed)) (wd_rows wd) /\
+      world_ok wd' /\
+      Forall2 (fun w w' => w_own w' = w_own w /\ w_back w' = w_back w /\
+                           rc_kind (w_col w') = rc_kind (w_col w) /\
+                           forall r, raw_get (w_col w') r = expected_cell w existing targets r)
+              (wd_cols wd) (wd_cols wd').
+  Proof.
+    intros wd removed Hok existing targets. unfold remove_rows. fold existing. fold targets.
+    set (trows' := filter (fun r => negb (memN r removed)) (wd_rows wd)).
+    destruct (mapM_Forall2 _ _ (remove_one hack trows' existing targets)
+                (fun w w' => w_own w' = w_own w /\ w_back w' = w_back w /\
+                             rc_kind (w_col w') = rc_kind (w_col w) /\
+                             w_rows w' = col_rows trows' w /\ wcol_ok trows' w' /\
+                             forall r, raw_get (w_col w') r = expected_cell w existing targets r)
+                (wd_cols wd)) as [cols' [E HF]].
+    { intros w Hw. unfold world_ok in Hok. rewrite Forall_forall in Hok.
+      apply (remove_one_spec (wd_rows wd) removed w). apply Hok. assumption. }
+    rewrite E. cbn [bind]. eexists. split; [reflexivity|]. cbn [wd_rows wd_cols].
+    split; [reflexivity|]. split.
+    - unfold world_ok. cbn [wd_rows wd_cols]. eapply Forall2_Forall_r; [exact HF|].
+      intros x y H. cbv beta in H. tauto.
+    - clear E. induction HF as [|x y l l' H HF IH]; constructor; [cbv beta in H; tauto|exact IH].
+  Qed.
+
+  (* after the cleanup no referring cell mentions a removed row *)
+  Lemma expected_no_refs : forall w existing targets r t, w_back w = true -> In t targets ->
+    ~ In t (value_iterable (rc_kind (w_col w)) (expected_cell w existing targets r)).
+  Proof.
+    intros w existing targets r t Hb Ht. unfold expected_cell. rewrite Hb. apply cell_without_no_refs. assumption.
+  Qed.
+  (* any history of removals *)
+  Fixpoint remove_seq (wd : world) (l : list (list nat)) : res world :=
+    match l with
+    | [] => Ok wd
+    | removed :: l' => bind (remove_rows hack wd removed) (fun wd' => remove_seq wd' l')
+    end.
+
+  Lemma remove_seq_ok : forall l wd, world_ok wd -> exists wd', remove_seq wd l = Ok wd' /\ world_ok wd'.
+  Proof.
+    induction l as [|removed l IH]; intros wd H.
+    - exists wd. split; [reflexivity|assumption].
+    - destruct (remove_rows_spec wd removed H) as [wd1 [E1 [_ [H1 _]]]].
+      destruct (IH wd1 H1) as [wd' [E' H']]. exists wd'. cbn [remove_seq]. rewrite E1. cbn [bind]. auto.
+  Qed.
+
+  Lemma run_inv_ok : forall k ops c, forallb (fun o => negb (is_clear o)) ops = true ->
+    run hack k ops = Ok c -> inv_ok c /\ rc_kind c = k.
+  Proof.
+    intros k ops c Hn E. destruct (run_from_ok hack false ops (col_new k) (col_new_ok k) (or_intror Hn)) as [c' [E' [H' K']]].
+    unfold run in E. rewrite E' in E. inversion E; subst. split; [assumption|exact K'].
+  Qed.
+End WorldProofs.
+
+(* END-PART-3 *)
